@@ -72,6 +72,11 @@ def _lattice_cfgs():
       dict(lattice_sizes=[2, 2], monotonicities=[1, 1], monotonic_dominances=[(0, 1)]),
       dict(lattice_sizes=[2, 2], monotonicities=[1, 1], range_dominances=[(0, 1)]),
       dict(lattice_sizes=[2, 2], joint_monotonicities=[(0, 1)]),
+      # negative trust directions (the code has separate near-duplicate branches per direction)
+      dict(lattice_sizes=[2, 2], monotonicities=[1, 0], edgeworth_trusts=[(0, 1, -1)]),
+      dict(lattice_sizes=[3, 3], monotonicities=[1, 0], edgeworth_trusts=[(0, 1, -1)], output_min=0.0, output_max=1.0),
+      dict(lattice_sizes=[2, 3], monotonicities=[1, 0], trapezoid_trusts=[(0, 1, 1)], output_max=1.0),
+      dict(lattice_sizes=[3, 2], monotonicities=[0, 1], edgeworth_trusts=[(1, 0, -1)], trapezoid_trusts=[(1, 0, -1)]),
   ]
 
 
